@@ -78,17 +78,25 @@ end sortmap
 theorem cast_beq (a b : Nat) : ((a : Int) == (b : Int)) = (a == b) := by
   rw [Bool.eq_iff_iff]; simp; omega
 
-theorem weightLt_enc (a b : Entry) : weightLt (α := α) (encEntry a) (encEntry b) = some (keyLt a b) := by
-  simp [weightLt, encEntry, keyLt, cast_beq]
+theorem weightLt_enc (a b : Entry) (h : a.cnt ≠ b.cnt) :
+    weightLt (α := α) (encEntry a) (encEntry b) = some (keyLt a b) := by
+  have h' : ¬ ((a.cnt : Int) = (b.cnt : Int)) := by omega
+  simp [weightLt, encEntry, keyLt, cast_beq, h']
 
-theorem heapInsert_enc (e : Entry) : ∀ q : List Entry,
+/-- Equal weight triples (in particular equal counters) make the comparison stuck. -/
+theorem weightLt_tie (a b : Entry) (h1 : a.nAd = b.nAd) (h2 : a.mroSum = b.mroSum) (h3 : a.cnt = b.cnt) :
+    weightLt (α := α) (encEntry a) (encEntry b) = none := by
+  simp [weightLt, encEntry, h1, h2, h3]
+
+theorem heapInsert_enc (e : Entry) : ∀ q : List Entry, (∀ x ∈ q, x.cnt ≠ e.cnt) →
     heapInsert (α := α) (encEntry e) (q.map encEntry) = some ((qInsert e q).map encEntry)
-  | [] => by simp [heapInsert, qInsert]
-  | x :: xs => by
-    simp only [List.map_cons, heapInsert, weightLt_enc, qInsert]
+  | [], _ => by simp [heapInsert, qInsert]
+  | x :: xs, h => by
+    have hx : e.cnt ≠ x.cnt := fun hh => h x List.mem_cons_self hh.symm
+    simp only [List.map_cons, heapInsert, weightLt_enc e x hx, qInsert]
     cases keyLt e x with
     | true => simp
-    | false => simp [heapInsert_enc e xs]
+    | false => simp [heapInsert_enc e xs (fun y hy => h y (List.mem_cons_of_mem _ hy))]
 
 /-! ## "Walk path and create adapters": the `for offer in new_path: … else:` loop -/
 
@@ -153,13 +161,17 @@ structure Rel (adaptee : α) (target : Nat) (st : Model.PyA.St α) (mst : Model.
   h4 : st.vars 4 = some (.list (mst.queue.map encEntry))
   hc : st.counter = mst.counter
   ht : st.trace = mst.trace
+  /-- the counters in the queue are below the next counter value, hence (with
+  `heapInsert_enc`) no two heap entries ever compare equal on their weight triple -/
+  hlt : ∀ e ∈ mst.queue, e.cnt < mst.counter
 
-theorem heapInsert_push (a b c d : Nat) (p : List Offer) (o : Offer) (t : Nat) (q : List Entry) :
+theorem heapInsert_push (q : List Entry) (c : Nat) (hne : ∀ x ∈ q, x.cnt ≠ c) (a b d : Nat) (p : List Offer)
+    (o : Offer) (t : Nat) :
     heapInsert (α := α)
         (.tuple [.tuple [.int ((a : Int) + 1), .int ((b : Int) + (d : Int)), .int (c : Int)],
                  .list (p.map .offer ++ [.offer o]), .ty t]) (q.map encEntry) =
       some ((qInsert ⟨a + 1, b + d, c, p ++ [o], t⟩ q).map encEntry) := by
-  have := heapInsert_enc (α := α) ⟨a + 1, b + d, c, p ++ [o], t⟩ q
+  have := heapInsert_enc (α := α) ⟨a + 1, b + d, c, p ++ [o], t⟩ q hne
   simpa [encEntry, encPath] using this
 
 theorem edges_loop (C : Ctx α) (fuel : Nat)
@@ -181,11 +193,16 @@ theorem edges_loop (C : Ctx α) (fuel : Nat)
     subst hr
     cases hp : C.cfg.provides o.to target with
     | false =>
+      have hne : ∀ x ∈ mst.queue, x.cnt ≠ mst.counter := fun x hx => Nat.ne_of_lt (R.hlt x hx)
       simp [forLoop, bindTargets, bindAll, encEdge, adaptLoop2, exec, truth, eval, getVar, setVar, builtin, hprov, hp,
-        R.h0, R.h1, R.h2, R.h4, R.hc, R.ht, h6, h7, encPath, encWeight, processEdges, heapInsert_push]
+        R.h0, R.h1, R.h2, R.h4, R.hc, R.ht, h6, h7, encPath, encWeight, processEdges,
+        heapInsert_push mst.queue mst.counter hne]
       generalize hr : forLoop [10, 11] _ _ _ = r
       exact ih _ _ ⟨by simp [setVar, R.h0], by simp [setVar, R.h1], by simp [setVar, R.h2], by simp [setVar],
-        by simp [R.hc], by simp [R.ht]⟩ (by simp [setVar, h6, encWeight]) (by simp [setVar, h7, encPath]) r hr
+        by simp [R.hc], by simp [R.ht], fun e he => by
+          rcases Adapt.mem_qInsert.1 he with rfl | h
+          · simp
+          · exact Nat.lt_succ_of_lt (R.hlt e h)⟩ (by simp [setVar, h6, encWeight]) (by simp [setVar, h7, encPath]) r hr
     | true =>
       simp [forLoop, bindTargets, bindAll, encEdge, adaptLoop2, exec, truth, eval, getVar, setVar, builtin, hprov, hp,
         R.h0, R.h1, R.h2, R.h4, R.hc, R.ht, h6, h7, encPath, encWeight, processEdges]
@@ -218,7 +235,7 @@ theorem edges_loop (C : Ctx α) (fuel : Nat)
              by rw [h5 1 (by decide) (by decide)]; simp [setVar, R.h1],
              by rw [h5 2 (by decide) (by decide)]; simp [setVar, R.h2],
              by rw [h5 4 (by decide) (by decide)]; simp [setVar, R.h4],
-             by rw [h4], h3⟩
+             by rw [h4], h3, R.hlt⟩
             (by rw [h5 6 (by decide) (by decide)]; simp [setVar, h6])
             (by rw [h5 7 (by decide) (by decide)]; simp [setVar, h7]) r hr
 
@@ -269,7 +286,8 @@ theorem while_loop (C : Ctx α) (H : Calls C) (adaptee : α) (target fuel : Nat)
       have he := fun hR h6 h7 => edges_loop C fuel H.prov adaptee target w
         (pySort (edgeLt C.cfg) (applicable C.cfg w.cur w.path)) _ ⟨rest, cnt, tr⟩ hR h6 h7 r1 hr1
       replace he := he ⟨by simp [setVar, R.h0], by simp [setVar, R.h1], by simp [setVar, R.h2], by simp [setVar],
-        by simp [R.hc], by simp [R.ht]⟩ (by simp [setVar, encWeight]) (by simp [setVar, encPath])
+        by simp [R.hc], by simp [R.ht], fun e he => R.hlt e (List.mem_cons_of_mem _ he)⟩
+        (by simp [setVar, encWeight]) (by simp [setVar, encPath])
       obtain ⟨s1, f1⟩ := r1
       cases hpe : processEdges C.cfg C.f adaptee target w (pySort (edgeLt C.cfg) (applicable C.cfg w.cur w.path))
           ⟨rest, cnt, tr⟩ with
@@ -312,7 +330,7 @@ theorem runAdapt_eq (cfg : Cfg) (hne : NonEmptyGroups cfg) (f : Factory α) (src
   have hw := fun hR => while_loop (ctxAt adaptProg cfg f srcType callDepth) (calls_ctx cfg hne f srcType) adaptee target
     fuel _ _ (fun _ => rfl) (fun _ => rfl) fuel _ (initSt srcType) hR r hr
   replace hw := hw ⟨by simp [setVar, initFrame], by simp [setVar, initFrame], by simp [setVar], by
-    simp [setVar, initSt, encEntry, encPath, ctxAt], by simp [initSt], by simp [initSt]⟩
+    simp [setVar, initSt, encEntry, encPath, ctxAt], by simp [initSt], by simp [initSt], by simp [initSt]⟩
   obtain ⟨s1, f1⟩ := r
   obtain ⟨h1, h2⟩ := hw
   simp only [ctxAt] at h1 h2
